@@ -12,7 +12,7 @@ DECIDES = ('the unweighted-points / weights caches of the three rational classes
            'coordinate range and copy the slot (WS1), and paired converters are inverse element maps, (c*w)/w = c in normal form (WS2); '
            'rational property setters pass (points, weights) to the combiner in that order and sizes in (u, v, w) order (WS3, LY3) and store the result on every normally returning path (WS4); the '
            'weighted grid indexes its flat per-point weight list by both loop levels with the right stride (PP1); type converters copy '
-           'every defining property from the same-direction property of the source (CV1); no method stores a structure that may alias one of its arguments into the control point array or a cached view, so the views cannot drift apart through the caller\'s own lists (ES1, may-alias analysis); a cached view is read only inside its own lazily filling getter, every other method goes through the property (IV8); the unit-weight test of nurbs_to_bspline is two-sided (TOL1) and a single non-unit weight refuses the conversion (UW1). the file variants of the 2-D converters apply the converter they are named after and save the array with matching sizes (FH1, LY3f).')
+           'every defining property from the same-direction property of the source and construct the result with the knot vector normalisation setting of the source (CV1, CV2); no method stores a structure that may alias one of its arguments into the control point array or a cached view, so the views cannot drift apart through the caller\'s own lists (ES1, may-alias analysis); a cached view is read only inside its own lazily filling getter, every other method goes through the property (IV8); the unit-weight test of nurbs_to_bspline is two-sided (TOL1) and a single non-unit weight refuses the conversion (UW1). the file variants of the 2-D converters apply the converter they are named after and save the array with matching sizes (FH1, LY3f).')
 NOT_DECIDED = 'invariance of evaluated points under a common positive weight factor; numerical round-trip to rounding; evaluation equality after type conversion (needs C01).'
 TECHNIQUE = 'static typestate dataflow + per-point map extraction in polynomial normal form + axis-tag rules + may-alias escape analysis'
 
@@ -369,6 +369,20 @@ def converters(m, run):
             run.ob('CV1.convert-order', fi.key + ' :: protocol order', not bad and not late_kv,
                    'degrees and sizes, then control points, then knot vectors' if not bad and not late_kv else
                    'definition protocol violated: %s assigned after ctrlpts / %s before ctrlpts' % (bad, late_kv), site(fi))
+    # the converted shape is parametrised like its source: it is constructed with the source's knot vector normalisation setting
+    # (a default-constructed shape re-normalises the copied knot vectors onto [0, 1] and no longer evaluates at the source's parameters)
+    for kind in ('curve', 'surface', 'volume'):
+        fi = m.func('_convert.convert_' + kind)
+        src = params_of(fi.node)[0]
+        ctor = [a.value for a in walk_no_nested(fi.node) if isinstance(a, ast.Assign) and isinstance(a.value, ast.Call) and isinstance(a.value.func, ast.Attribute)
+                and a.value.func.attr.lower() == kind]
+        if not ctor:
+            raise AnalysisError('%s: construction of the converted shape not found' % fi.key)
+        kw = next((k.value for k in ctor[0].keywords if k.arg == 'normalize_kv'), None)
+        ok = kw is not None and any(isinstance(x, ast.Name) and x.id == src for x in ast.walk(kw))
+        run.ob('CV2.converted-shape-keeps-parametrisation', fi.key, ok, 'constructed with normalize_kv taken from the source' if ok else
+               '`%s` creates the converted shape with the default normalize_kv=True: a source built with normalize_kv=False is re-parametrised onto [0, 1] '
+               'and is no longer an identically evaluating shape' % norm(ctor[0]), site(fi))
     # convert.py dispatch: each isinstance(obj, X.K) branch calls convert_<k>
     for fname in ('bspline_to_nurbs', 'nurbs_to_bspline'):
         fi = m.func('convert.' + fname)
